@@ -104,7 +104,7 @@ def run(ctx):
     for n in find(nodes, peg.MatchFirst):
         if len(n.exprs) == 2 and all(isinstance(e, peg.Regex) for e in n.exprs):
             pats = [e.pattern for e in n.exprs]
-            if all(relang.inclusion_witness(p, r"[0-9.]*") is None for p in pats):
+            if all(relang.inclusion_witness(p, r"[\d.]*") is None for p in pats):
                 cnt = n
                 break
     if cnt is None:
@@ -183,7 +183,10 @@ def run(ctx):
              ("Na{+} 2Cl{-}", {("Na", 0, 1): 1, ("Cl", 0, -1): 2}, None),
              ("CaCO3+(3HO1.5)2", {("Ca", 0, 0): 1, ("C", 0, 0): 1, ("O", 0, 0): 12, ("H", 0, 0): 6}, None),
              ("2D2O + H2O@1n", {("D", 2, 0): 4, ("O", 0, 0): 3, ("H", 0, 0): 2}, (Fraction(1), "natural")),
-             ("Fe[56] 2O", {("Fe", 56, 0): 1, ("O", 0, 0): 2}, None)]
+             ("Fe[56] 2O", {("Fe", 56, 0): 1, ("O", 0, 0): 2}, None),
+             ("2H2O", {("H", 0, 0): 4, ("O", 0, 0): 2}, None), ("(NaCl)3", {("Na", 0, 0): 3, ("Cl", 0, 0): 3}, None),
+             ("Fe Fe", {("Fe", 0, 0): 2}, None), ("Fe+2Fe", {("Fe", 0, 0): 3}, None), ("(Fe)2", {("Fe", 0, 0): 2}, None)]
+    nfixed = len(fixed)
     cases = fixed + [gen.compound(depth=3 if k % 4 == 0 else 2) for k in range(n_valid)]
     s_act = fsite(ctx, "formulas.formula_grammar.convert_element")
     shown = 0
@@ -215,6 +218,23 @@ def run(ctx):
                 shown += 1
                 ctx.fail("R5", f"net charge of {text!r}", f"charge {gch}, expected {ch}", s_act, witness=text)
             continue
+        if dens is None:
+            # no '@' tag: only a single-atom formula has a density (that atom's); everything else is unknown
+            gd = I.getattr(f, "density")
+            if len(want) == 1:
+                only = [a for a in I.getattr(f, "atoms")][0]
+                okd = sp.simplify(sp.sympify(gd) - sp.sympify(I.getattr(only, "density"))) == 0 if gd is not None and I.getattr(only, "density") is not None \
+                    else gd is I.getattr(only, "density")
+            else:
+                okd = gd is None
+            if not okd:
+                nbad += 1
+                if shown < 5:
+                    shown += 1
+                    ctx.fail("R5", f"density of the untagged string {text!r}",
+                             f"density = {_s(gd)}: a string without '@' has the atom's density only when it names a single atom, otherwise none",
+                             fsite(ctx, "formulas.Formula.__init__"), witness=text)
+                continue
         if dens is not None:
             attr = "natural_density" if dens[1] == "natural" else "density"
             gd = sp.nsimplify(I.getattr(f, attr)) if dens[1] != "natural" else None
@@ -230,13 +250,13 @@ def run(ctx):
                 continue
     ctx.check(nbad == 0, "R5", f"derivation sweep: atom counts, net charge and density of {len(cases)} strings of the documented grammar",
               f"{nbad} of {len(cases)} strings are read differently from what the grammar describes", site,
-              sample={"strings": len(cases), "examples": [c[0] for c in cases[7:12]]})
+              sample={"strings": len(cases), "examples": [c[0] for c in cases[nfixed:nfixed + 5]]})
     ctx.unit("derivations", len(cases))
 
     # ---- R6 malformed strings are rejected, also the second time ---------------------------------------------
     mal = list(G.MALFORMED)
     rng = gen.rng
-    for text, atoms, dens in cases[7:7 + (60 if ctx.thorough else 25)]:
+    for text, atoms, dens in cases[nfixed:nfixed + (60 if ctx.thorough else 25)]:
         m = re.search(r"[A-Z][a-z]?", text)
         variants = [text[:m.start()] + "Xx" + text[m.end():], text + ")", "(" + text, text.replace("[", "[0", 1) if "[" in text else text + "[0]",
                     text + "{9+}" if not text.rstrip("0123456789.nia@").endswith("}") and "@" not in text else text + "@"]
